@@ -112,7 +112,8 @@ Definition fits_long (k : kind) : bool :=
   | _ => false
   end.
 
-Inductive exn := ValueError | TypeError | SystemError | RuntimeError | IndexError | FatalError.
+Inductive exn := ValueError | TypeError | SystemError | RuntimeError | IndexError | FatalError
+             | OutOfModel.   (* a read past the end of the modelled memory: no claim is made *)
 
 Inductive value :=
 | VInt (z : Z)
@@ -242,8 +243,12 @@ Definition convert_to_object (k : kind) (a : Z) (bs : list Z) : res value :=
 (* ---------------------------------------------------------------- element-wise reading *)
 (* p[i] for a non-owning pointer cdata p with c_data = addr (any i is accepted,
    _cdata_get_indexed_ptr :2475-2491, address addr + i*itemsize :2512) *)
+Definition out_of_model (k : kind) (bs : list Z) (items : Z) : bool :=
+  (0 <=? ksize k) && (Z.of_nat (length bs) <? items * ksize k).
+
 Definition index (k : kind) (addr : Z) (bs : list Z) (i : Z) : res value :=
   if addr =? 0 then Err RuntimeError
+  else if out_of_model k bs (i + 1) then Err OutOfModel
   else convert_to_object k (addr + i * ksize k) (drop (i * ksize k) bs).
 
 Fixpoint map_until_error {A B} (f : A -> res B) (l : list A) : res (list B) :=
@@ -375,6 +380,7 @@ Definition of_res (f : list Z -> result) (r : res (list Z)) : result :=
 Definition unpack (tb : tables) (k : kind) (align addr : Z) (bs : list Z) (n : Z) : result :=
   if n <? 0 then RErr ValueError
   else if addr =? 0 then RErr RuntimeError
+  else if out_of_model k bs n then RErr OutOfModel
   else
     let generic :=
       if ksize k <? 0 then RErr ValueError
@@ -402,7 +408,8 @@ Fixpoint zlist_eqb (x y : list Z) : bool :=
 Definition exn_eqb (a b : exn) : bool :=
   match a, b with
   | ValueError, ValueError | TypeError, TypeError | SystemError, SystemError
-  | RuntimeError, RuntimeError | IndexError, IndexError | FatalError, FatalError => true
+  | RuntimeError, RuntimeError | IndexError, IndexError | FatalError, FatalError
+  | OutOfModel, OutOfModel => true
   | _, _ => false
   end.
 
